@@ -51,3 +51,35 @@ func H_C13_overlap_truncation_keeps_suffix() {
 	}
 	vReach("end")
 }
+
+// H_C13_overlap_across_three_chunks: the overlap a chunk receives comes from the previous chunk's OWN content, also
+// when that chunk is shorter than the overlap size and has itself received an overlap.
+//
+//symgo:harness prop=C13 kernel=K3-overlap-chain loop=512
+//symgo:desc three chunks: "Xaa bbb ccc ddd eee." / a middle chunk of 1 or 3 words (enumerated; shorter than the overlap size) / "Zaa bbb."; capitals symbolic over {A, B}; ApplyOverlapToChunks with the character strategy (Size 12, words preserved) or the sentence strategy (Size 2) (enumerated), MaxOverlap 40: for every chunk i > 0 the overlap prefix (whitespace aside) is a suffix of chunk i-1's own text as it was before any overlap was added, and chunk 0's text is unchanged
+func H_C13_overlap_across_three_chunks() {
+	x, z := vAnyByteOf("AB"), vAnyByteOf("AB")
+	own := []string{string([]byte{x}) + "aa bbb ccc ddd eee.", "Mid.", string([]byte{z}) + "aa bbb."}
+	if vAnyIntIn(0, 1) == 1 {
+		own[1] = "Mid one two."
+	}
+	cfg := OverlapConfig{Strategy: OverlapCharacter, Size: 12, MinOverlap: 0, MaxOverlap: 40, PreserveWords: true}
+	if vAnyIntIn(0, 1) == 1 {
+		cfg.Strategy, cfg.Size = OverlapSentence, 2
+	}
+	chunks := make([]*Chunk, len(own))
+	for i, t := range own {
+		chunks[i] = NewChunk("c"+string(rune('0'+i)), t, ChunkMetadata{ChunkIndex: i})
+	}
+	res := ApplyOverlapToChunks(chunks, cfg)
+	vAssert("one-result-per-chunk", len(res) == len(own))
+	vAssert("first-chunk-unchanged", res[0].Chunk.Text == own[0])
+	for i := 1; i < len(res); i++ {
+		a, b := vNonWS(res[i].OverlapPrefix), vNonWS(own[i-1])
+		vAssert("overlap-not-longer-than-previous-chunk", len(a) <= len(b))
+		for k := range a {
+			vAssert("overlap-is-suffix-of-previous-chunks-own-text", k < len(a) && len(b)-len(a)+k >= 0 && a[k] == b[len(b)-len(a)+k])
+		}
+	}
+	vReach("end")
+}
